@@ -127,13 +127,14 @@ PLANS = {
     ),
     'C05': dict(
         module='RucteProps.C05',
-        theorems=['Ructe.C05.expression_sound', 'Ructe.C05.exprInsideParens_sound', 'Ructe.C05.quotedString_sound', 'Ructe.C05.expression_nonempty', 'Ructe.C05.expression_no_panic', 'Ructe.C05.emit_verbatim', 'Ructe.C05.slash_pinned_witness'],
+        extra_modules=['RucteProps.C05Complete'],
+        theorems=['Ructe.C05.expression_sound', 'Ructe.C05.exprInsideParens_sound', 'Ructe.C05.quotedString_sound', 'Ructe.C05.expression_nonempty', 'Ructe.C05.expression_no_panic', 'Ructe.C05.emit_verbatim', 'Ructe.C05.slash_pinned_witness', 'Ructe.C05.rustName_complete', 'Ructe.C05.rustComment_complete', 'Ructe.C05.quotedString_complete', 'Ructe.C05.exprInsideParens_complete', 'Ructe.C05.exprInParens_complete', 'Ructe.C05.stops_simple', 'Ructe.C05.stops_dot_nonident', 'Ructe.C05.expression_name_complete', 'Ructe.C05.expression_call_complete'],
         runs=[dict(suite='sub', n=dict(quick=20000, thorough=600000), projection='identity', tags=['C05']),
               dict(suite='parse', mix='structured,examples', n=dict(quick=2000, thorough=30000), projection='body', tags=['C05'])],
         correspondence='consumed length / value / error list of expression, expr_inside_parens, quoted_string, rust_comment and the other named sub-parsers, and the syntax tree + body code of whole templates, vs the Lean transcription',
         rule='expressions from the documented grammar (prefix, atom, postfix chain, nested groups with plain runs / strings with every supported escape and embedded delimiters / block comments with embedded delimiters and quotes / division followed by delimiters and quotes) x 18 follower classes; near-miss token strings through 15 sub-parsers; non-trivial = distinct documented fragments',
         assumptions=['the fragment is opaque Rust: that it reaches rustc unmodified is the correspondence on the printed code; that it is evaluated once is the e2e run'],
-        level_text='Proved: expression_sound / exprInsideParens_sound / exprInParens_sound / quotedString_sound (the fragment is exactly the consumed prefix, valid UTF-8), expression_nonempty, expression_no_panic, emit_verbatim (printed once, unmodified). Completeness (the documented maximal form is taken in full) is proved for the parts in RucteProps/C05Complete.lean (when present) and otherwise validated by the generator oracle of the sub suite (documented grammar x 18 follower classes).',
+        level_text='Proved: expression_sound / exprInsideParens_sound / exprInParens_sound / quotedString_sound (the fragment is exactly the consumed prefix, valid UTF-8), expression_nonempty, expression_no_panic, emit_verbatim (printed once, unmodified). Completeness is proved for: names (rustName_complete), block comments (rustComment_complete), string literals with every supported escape (quotedString_complete), the full documented group grammar — nested (), [], {} groups, strings and comments hiding delimiters, division — between parentheses (exprInsideParens_complete, exprInParens_complete: `@( .. )` ends at its matching parenthesis), the documented followers (stops_*), and `name` / `name(..)` followed by a follower (expression_name_complete, expression_call_complete). The general chain (`.member`, `::path`, `[..]`, `{..}`, `!(..)` in any combination) is validated by the generator oracle of the sub suite (documented grammar x 18 follower classes), not proved.',
         level_note='Trusted: Lean kernel; hand-written transcription of expression.rs (validated by the tie). K direction partial.',
         design_ref='DESIGN.md §6 C05',
     ),
